@@ -77,8 +77,9 @@ class Gen:
 
     def const(self):
         if self.rng.random() < 0.08:
-            # a constant that is immutable only on the surface: a tuple holding mutable members
-            return {"k": "const", "v": copy.deepcopy(self.rng.choice([[[1, 2], "x"], [{"n": [0]}, 1], [[], [[1]]]])), "as": "tuple"}
+            # a constant that is immutable only on the surface: a tuple holding mutable members (no dictionaries:
+            # str() of one has braces, and a template that substitutes that text resolves it again - DESIGN §5)
+            return {"k": "const", "v": copy.deepcopy(self.rng.choice([[[1, 2], "x"], [[[0], "n"], 1], [[], [[1]]]])), "as": "tuple"}
         return {"k": "const", "v": copy.deepcopy(self.rng.choice(U.VALUES))}
 
     def preset(self, templated=False):
